@@ -323,7 +323,19 @@ def reg4_6(ctx: Ctx) -> None:
             ctx.R.undecided("REG-4", "trailing-callable condition not understood")
     for c in calls_in(reg, True):
         if isinstance(c.func, ast.Attribute) and norm(c.func.value) == "registry" and c.func.attr == "setdefault":
-            ctx.R.fail("REG-4", mod, c, "setdefault keeps the first registration: the documented behaviour is that the latest wins")
+            # only reachable when the caller passes a non-default value of an option of register()?
+            defaults = {a.arg: d for a, d in list(zip(reversed(reg.args.args), reversed(reg.args.defaults))) + list(zip(reg.args.kwonlyargs, reg.args.kw_defaults)) if isinstance(d, ast.Constant)}
+            off_default = False
+            for g_, pol in guards_of(mod, c, reg):
+                neg = isinstance(g_, ast.UnaryOp) and isinstance(g_.op, ast.Not)
+                nm = g_.operand if neg else g_
+                if isinstance(nm, ast.Name) and nm.id in defaults and not any(isinstance(w, ast.Name) and w.id == nm.id and isinstance(w.ctx, ast.Store) for w in ast.walk(reg)):
+                    if (bool(defaults[nm.id].value) != neg) != pol:
+                        off_default = True
+            if off_default and any(isinstance(a_, ast.Assign) and isinstance(a_.targets[0], ast.Subscript) and norm(a_.targets[0].value) == "registry" for a_ in walk_scope(reg)):
+                ctx.R.ok("REG-4", "registry.setdefault(...) is reached only for a non-default value of an option of register(); the default path assigns")
+            else:
+                ctx.R.fail("REG-4", mod, c, "setdefault keeps the first registration: the documented behaviour is that the latest wins")
     # dispatch
     txt = [norm(s) for s in dis.body]
     tr = [s for s in dis.body if isinstance(s, ast.Try)]
